@@ -65,7 +65,31 @@ def comp_st(draw):
 
 srvsim_DENY = ["53 Access denied\r\n", "44 Slow down\r\n", "60 Client certificate required\r\n", "51 hidden\r\n"]
 
-PATHS = ["/", "/app/page.gmi", "/private/x", "/other"]
+PATHS = ["/", "/app/page.gmi", "/private/x", "/other", "/open;x/../private/x", "/x/y/%2e%2e/../private/x", "/app/%2E/../private/x"]
+
+
+def canon(path: str) -> str:
+    """Decode once, drop '.' / resolve '..' (reference form for comparing what the chain and the handler were given)."""
+    from urllib.parse import unquote
+
+    out = []
+    for seg in unquote(path).split("/"):
+        if seg in ("", "."):
+            continue
+        if seg == "..":
+            if out:
+                out.pop()
+            continue
+        out.append(seg)
+    return "/" + "/".join(out)
+
+
+def eff_path(case) -> str:
+    """The location the request is about: for Titan everything from the first ';' on is parameters."""
+    p = case["path"]
+    if case.get("titan"):
+        p = p.split(";", 1)[0]
+    return canon(p) if p != "/" else "/"
 
 
 @st.composite
@@ -148,7 +172,8 @@ def reference(case):
             if not admitted:
                 return "deny", "53 Access denied\r\n"
         else:
-            if case["path"].startswith(c["prefix"]):
+            ep = eff_path(case)
+            if ep.startswith(c["prefix"]) or (c["prefix"].endswith("/") and ep == c["prefix"][:-1]):
                 if c["require_cert"] and fp is None:
                     return "deny", "60 Client certificate required\r\n"
                 if c["allowed"] is not None:
@@ -211,14 +236,38 @@ def judge(case, log, S, disconnected, fp, peer_ip, chain_len=None):
         if n and not any(e[0] == "mw-enter" for e in log[:hi]):
             return viol("handler-ran-without-consulting-chain", f"{log[hi][0]} invoked, chain of {n} never consulted", **info)
     # (b) arguments
+    ambiguous = bool(case["titan"]) and ";" in case["path"]
+    seen_paths = []
     for e in enters:
         _, _t, _i, url, ip, got_fp = e
         if ip != peer_ip:
             return viol("wrong-peer-address", f"chain saw {ip!r}, peer is {peer_ip!r}", **info)
         if got_fp != fp:
             return viol("wrong-fingerprint", f"chain saw {got_fp!r}, presented {fp!r}", **info)
-        if case["path"] not in url or "://" not in url:
+        if "://" not in url:
             return viol("wrong-url", f"chain saw {url!r} for {case['line']!r}", **info)
+        seen = url.split("://", 1)[1]
+        seen = "/" + seen.split("/", 1)[1] if "/" in seen else "/"
+        seen = seen.split("?", 1)[0]
+        if case["titan"]:
+            import re as _re
+
+            seen = _re.split(r";(?:size|mime|token)=", seen, maxsplit=1)[0]
+        seen_paths.append(seen)
+        if not ambiguous and canon(seen) != eff_path(case):
+            return viol("wrong-url", f"chain was consulted about {seen!r} (= {canon(seen)!r}) for {case['line']!r}, which is about {eff_path(case)!r}", **info)
+    # what the chain judged and what the handler acts on must be the same location
+    for hi in hidx:
+        e = log[hi]
+        hpath = e[5] if e[0] == "handler" else e[3]
+        for seen in seen_paths:
+            if hpath is not None and canon(str(hpath)) != canon(seen):
+                return viol("handler-acts-on-another-path", f"{e[0]} was given path {hpath!r} (= {canon(str(hpath))!r}) but the chain was consulted "
+                            f"about {seen!r} (= {canon(seen)!r}) for {case['line']!r}", **info)
+    if ambiguous:
+        # ';' inside a Titan path: whether it starts the parameters is the implementation's choice; only the relational
+        # clauses above are required, no reference verdict is computed
+        return ok(ambiguous=True, **info)
     if ref == "admit" or n == 0:
         if not disconnected and len(hidx) != 1:
             return viol("admitted-request-not-served-once", f"{len(hidx)} invocations", **info)
@@ -429,6 +478,9 @@ def overlap_case_st(draw):
     peers = draw(st.permutations(IPS))
     conns = [{"peer": peers[i], "cert": draw(st.sampled_from(CERTS)), "path": draw(st.sampled_from(PATHS)),
               "titan": draw(st.integers(0, 3)) == 0} for i in range(n)]
+    for c_ in conns:
+        if ";" in c_["path"]:
+            c_["titan"] = False  # where a Titan path ends when it contains ';' is left to the implementation
     return {"chain": chain, "conns": conns, "schedule": draw(st.lists(st.integers(0, 59), max_size=14))}
 
 
@@ -490,7 +542,7 @@ def run_overlap(case: dict):
     enter_t = {}
     for i, c in enumerate(case["conns"]):
         url = url_of(i, c)
-        ref, resp = reference({"chain": case["chain"], "peer": c["peer"], "cert": c["cert"], "path": c["path"]})
+        ref, resp = reference({"chain": case["chain"], "peer": c["peer"], "cert": c["cert"], "path": c["path"], "titan": c["titan"]})
         info["refs"].append(ref)
         mark = f"token=t{i}" if c["titan"] else f"?c={i}"
         ran = [e for e in sim.log if e[0] in ("handler", "upload") and str(e[2]).endswith(mark)]
